@@ -358,6 +358,13 @@ def _kp_nc_over_completed(case, sig, msg):
 
 KNOWN_PREDICATES = {"nc_over_completed": _kp_nc_over_completed}
 
+# thorough tier: coverage-guided campaigns (atheris/libFuzzer mutating the bytes Hypothesis draws from)
+FUZZ = {
+    "subs": ['histories'],
+    "targets": ['cogent3.app.data_store', 'cogent3.app.sqlite_data_store'],
+    "execs_thorough": 40_000, "jobs_thorough": 4, "execs_quick": 1000, "jobs_quick": 2,
+}
+
 META = {
     "technique": "Hypothesis-generated operation histories over related identifiers against a dictionary model, with a live-vs-reopened differential after every step",
     "level_text": "Each run drives about a thousand histories of up to 25 store operations (both store kinds, all modes, close/reopen) over identifier pools built so that ids are suffixes/prefixes of each other or contain the suffix text, and after every single step compares membership, content and checksum of every record with a plain dictionary model, on the live object and on a freshly opened read-only store.",
